@@ -8,12 +8,12 @@ S = "ExcludeRegionState.ExcludeRegionState."
 FUNCTIONS = [P + "on_api_command", P + "_handleAddExcludeRegion", P + "_handleDeleteExcludeRegion",
              P + "_handleUpdateExcludeRegion", S + "addRegion", S + "deleteRegion", S + "replaceRegion", S + "getRegion",
              "RectangularRegion.RectangularRegion.containsRegion", "CircularRegion.CircularRegion.containsRegion",
-             "RectangularRegion.RectangularRegion.containsPoint", "CircularRegion.CircularRegion.containsPoint"]
+             "RectangularRegion.RectangularRegion.containsPoint", "CircularRegion.CircularRegion.containsPoint", "__init__.ExcludeRegionPlugin._handleSettingsUpdated"]
 ASSUMPTIONS = ["A1", "A2", "A3", "A4", "INDUCTION"]
 EXPLANATION = ("For an arbitrary (skolemised) point p and an arbitrary region list: while printing without the shrink "
                "permission, excluded(list, p) implies excluded(list', p) for every API request; refused requests leave "
                "the list unchanged. Monotonicity of an accepted update is the C17 containment lemma (callee contract of "
-               "containsRegion instantiated at p) plus the whole-view post-condition of replaceRegion.")
+               "containsRegion instantiated at p) plus the whole-view post-condition of replaceRegion. The may-shrink flag consulted by the delete/update guards is the value of ITS settings key (_handleSettingsUpdated).")
 BREAKERS = [{'desc': 'containment test swapped (new inside old)',
   'functions': ['ExcludeRegionState.ExcludeRegionState.replaceRegion'],
   'module': 'ExcludeRegionState',
